@@ -30,13 +30,14 @@ class H(Harness):
         allow = ['ldiscard', 'ldiscard', 'ldiscardself', 'ldiscardself', 'ladd', 'laddself', 'post']
         for i in range(n):
             dyn = rnd.choice(['stochastic', 'synchronous', 'synchronous'])
-            tb = kcommon.gen_table(rnd, dyn, allow=allow, maxacts=4)
+            tb = kcommon.gen_table(rnd, dyn, allow=allow, maxacts=4, unnamed_ok=True)
             out.append({'table': tb, 'dynamics': dyn, 'seed': rnd.randrange(1 << 30), 'prerun': rnd.random() < 0.25})
         try:
             from harness import compart
             out += compart.c05_cases(rnd, max(20, n // 5))
             out += [compart.gen_case(rnd) for _ in range(max(20, n // 5))]
             out += compart.vi_post_cases(rnd, max(20, n // 10))
+            out += compart.fr_rerun_cases(rnd, max(20, n // 12))
         except ImportError:
             pass
         return out
